@@ -1,6 +1,7 @@
 """C17 - statistical transforms and combinatorics satisfy their defining identities (DESIGN 4/C17)."""
 LEVEL = "model_checking"
-RULE = ("P1: TLC builds Pascal's triangle up to n = 67 on a big-natural representation (base-10^4 limbs; the definition C(n,k) = "
+RULE = ("P1: the multiplicative loop of binom_coeff with its overflow guard is model-checked on abstract 8- and 12-bit words (all n <= 14 / 18): "
+        "every value that fits is returned exactly without intermediate wrap-around, loop invariant c = C(n, i); TLC builds Pascal's triangle up to n = 67 on a big-natural representation (base-10^4 limbs; the definition C(n,k) = "
         "C(n-1,k-1) + C(n-1,k)), checks symmetry and that the multiplicative formula agrees with it for n <= 30, and evaluates the "
         "multiplicative formula for n in {100, 1e3, 1e4, 1e5, 2e5}, k <= 32 with the 'fits in 64 bits' predicate; Box-Cox values "
         "(x^lambda - 1)/lambda on rational points (lambda in +-2, +-1, +-1/2, 3 with perfect-square x for half-integers); "
@@ -17,5 +18,8 @@ EXHAUSTIVE = True
 
 
 def run(R):
+    # design of the overflow guard on abstract 8- and 12-bit words: every value that fits is exact, nothing wraps
+    for w in (8, 12):
+        R.mc("BinomWord", "MC_BinomWord_%d.cfg" % w, workers=4, emit=False)
     cases, r = R.mc("MC_Special", "MC_Special_%s.cfg" % R.tier, workers=8, timeout=3000)
     R.replay(cases)
